@@ -629,15 +629,28 @@ fn foreign_group_block(rng: &mut Rng, n: usize, rep: &mut Report) {
                 data: marginfi::instruction::LendingPoolCloneEmode {}.data(),
             }),
         ];
+        // more instructions that name (group, role) and a bank or an ACCOUNT of this group: the outsider holds every role of
+        // his own group (a fresh group's delegates are unset; he assigns them to himself through the real configure)
+        let d = outsider;
+        let _ = s.w.exec(&ix::group_configure(own_group, outsider, outsider, d, d, d, d, d, d, None, None));
+        let user_acct = s.users[rng.below(s.users.len() as u64) as usize].acct;
+        let tok = s.w.add_token_account(victim.mint, outsider, 0);
+        let mut probes = probes;
+        probes.push(("marginfi_account_set_freeze (freeze)", ix::set_freeze(own_group, user_acct, outsider, true)));
+        probes.push(("lending_pool_set_fixed_oracle_price", ix::set_fixed_oracle_price(&foreign, outsider, I80F48::from_num(1000).into())));
+        probes.push(("lending_pool_force_tokenless_repay_complete", ix::force_tokenless_repay_complete(&foreign, outsider)));
+        probes.push(("lending_pool_withdraw_fees", ix::withdraw_fees(&foreign, outsider, tok, 1)));
+        probes.push(("lending_pool_withdraw_insurance", ix::withdraw_insurance(&foreign, outsider, tok, 1)));
+        probes.push(("start_deleverage", ix::start_deleverage(own_group, user_acct, outsider, s.w.remaining_in_slot_order(&user_acct))));
         for (name, ixn) in probes {
             rep.bump("cases");
             let before = s.w.accounts.clone();
             let r = s.w.exec(&ixn);
             rep.bump(if r.is_ok() { "foreign_group_accepted" } else { "foreign_group_refused" });
             if r.is_ok() {
-                let changed = before.get(&victim.bank) != s.w.accounts.get(&victim.bank);
-                rep.fail(format!("foreign-group-admin: {} signed by the admin of ANOTHER group (passed as `group`) was ACCEPTED on this group's bank{}", name, if changed { " and changed it" } else { "" }));
-                rep.fail(format!("C08 {} accepted a group that the bank does not belong to", name));
+                let changed = before.get(&victim.bank) != s.w.accounts.get(&victim.bank) || before.get(&user_acct) != s.w.accounts.get(&user_acct);
+                rep.fail(format!("foreign-group-admin: {} signed by the admin of ANOTHER group (passed as `group`) was ACCEPTED on this group's bank / account{}", name, if changed { " and changed it" } else { "" }));
+                rep.fail(format!("C08 {} accepted a group (and that group's role holder as signer) that the bank / account does not belong to", name));
                 s.w.accounts = before;
             } else if s.w.accounts != before {
                 rep.fail(format!("C08 a refused {} changed the account store", name));
